@@ -49,10 +49,26 @@ Where each clearing was read (modelx/core, the unchanged tree):
   `SpaceUpdater.add_bases / remove_bases / del_defined_space / new_space`: `_update_derived_space`
   for every walked space, then `_update_derived_refs` for each.
 
-Not in the machine: model-level references (`setGlobal` / `delGlobal` are refused; the namespace of
-a machine state has none), object-valued references, parametrised spaces (`clear_subs_rootitems`),
-attribute paths through child spaces at source level (an attribute path carries the identity of
-what it reaches, as in `Exec`).
+Model-level references (`ModelImpl.new_ref / change_ref / del_ref`, model.py; PROOF5):
+
+* `model._global_refs` is the last map of EVERY space's `_refs` chain (`UserSpaceImpl._init_refs`), so
+  `set_item` / `del_item` on it notify every space's namespace: every cells of every space
+  (`globalClearing`); `del_ref` and `RefDict.del_item` call `clear_attr_referrers(ref)` first.
+* a reference is identified by the ATTRIBUTE SLOT `(space, name)` it is reached through: the slot
+  denotes the space's own / derived reference of the name if there is one, otherwise (no cells of the
+  name) the model-level reference of the name (`refPay`).  A bare name `x` in space `q` is bound to the
+  slot `(q, x)`; `S.x` / `_space.x` in a source (a name with dots, `qualOf`) is bound to the slot
+  `(S, x)` when it is DECLARED (`Tabs.slots`, fixed for a run: the binding of an attribute path does
+  not depend on the state; what changes is the value of the slot) and is read `byAttr`.  The
+  reference graph of the model is keyed by slots; the code's by the `ReferenceImpl` reached:
+  `clear_attr_referrers(model-level x)` = the readers of every slot that denotes it (`globalAttr`).
+* a reference member that is created where a model-level reference of its name is visible SHADOWS it:
+  `on_create_ref` (space.py, own references, derived ones created by `SpaceManager.new_ref` /
+  `change_ref`) and `UserSpaceImpl.on_inherit` (a reference derived through a change of bases; /repo
+  5b95fbf) call `clear_attr_referrers(global_refs[name])`: `shadowClears`.
+
+Not in the machine: object-valued references (the reference `S` of `S.x` itself), parametrised spaces
+(`clear_subs_rootitems`), attribute paths to CELLS of other spaces at source level, `_model.x`.
 -/
 namespace MxModel.Edit
 open MxModel.Exec
@@ -67,6 +83,11 @@ a deleted cells is held (`C13.dead_cells_have_nothing`). -/
 structure Tabs where
   ctab : List (Path × String) := []
   rtab : List (Path × String) := []
+  /-- the attribute slots `(space, name)` the sources read through (`S.x`, `_space.x`): declared up
+  front (`W.init`), never changed -/
+  slots : List (Path × String) := []
+  /-- the values (payloads) of the model-level references (`SM.St.globals` keeps their names) -/
+  gv : List (String × Nat) := []
 deriving Repr
 
 def Tabs.cid (t : Tabs) (q : Path) (n : String) : CellId := t.ctab.idxOf (q, n)
@@ -84,9 +105,13 @@ def cellMembers (st : SM.St) : List (Path × String) :=
 def refMembers (st : SM.St) : List (Path × String) :=
   st.spaces.flatMap (fun s => s.refs.map (fun e => (s.id, e.1)))
 
-/-- every member of `st` gets an identity (those it has are kept) -/
+/-- the slots through which a model-level reference can be seen: every space × every model-level name -/
+def globalSlots (st : SM.St) : List (Path × String) :=
+  st.ids.flatMap (fun q => st.globals.map (fun x => (q, x)))
+
+/-- every member of `st` and every slot of a model-level reference gets an identity (those it has are kept) -/
 def Tabs.grow (t : Tabs) (st : SM.St) : Tabs :=
-  { ctab := addAll t.ctab (cellMembers st), rtab := addAll t.rtab (refMembers st) }
+  { t with ctab := addAll t.ctab (cellMembers st), rtab := addAll (addAll t.rtab (refMembers st)) (globalSlots st) }
 
 /-! ## the definitions the executor sees -/
 
@@ -115,14 +140,46 @@ def cellsOf (t : Tabs) (st : SM.St) (q : Path) : List CellId :=
 def refsOf (t : Tabs) (st : SM.St) (q : Path) : List RefId :=
   (conts st .refs q).map (fun e => t.rid q e.1)
 
-/-- the namespace of `q` as the value layer sees it: cells (own and derived), then – unless a child
-space bears the name – references (own and derived).  The chain of maps of `BaseSpaceImpl.__init__`
-(`Struct/MechNamespace.lean`) without the model-level references. -/
-def nsAt (t : Tabs) (st : SM.St) (q : Path) : Ns := fun x =>
+/-- is `x` a spelling, in a formula of space `q`, of the attribute path to the slot `e`: `S.x` (`S` the
+path of the space from the model, with dots) or `_space.x` for the space of the formula -/
+def spelled (q : Path) (e : Path × String) (x : String) : Bool :=
+  x == ".".intercalate e.1 ++ "." ++ e.2 || (e.1 == q && x == "_space." ++ e.2)
+
+/-- the DECLARED slot the name `x` spells in space `q` (no slot declared: every name is a plain name) -/
+def qualOf (t : Tabs) (q : Path) (x : String) : Option (Path × String) :=
+  t.slots.find? (fun e => spelled q e x)
+
+/-- the payload of the model-level reference `x` -/
+def gpay (t : Tabs) (st : SM.St) (x : String) : Option Nat :=
+  if st.globals.contains x then (t.gv.find? (fun e => e.1 == x)).map (·.2) else none
+
+/-- what the attribute slot `(q, x)` denotes as a reference: the own / derived reference of `q`,
+otherwise – `q` a space without a cells of the name – the model-level reference (the chain
+`[own_refs, sys_refs, model._global_refs]` behind the cells in `space.namespace`) -/
+def refPay (t : Tabs) (st : SM.St) (q : Path) (x : String) : Option Nat :=
+  match st.mem .refs q x with
+  | some m => some m.payload
+  | none => if st.has q && (st.mem .cells q x).isNone then gpay t st x else none
+
+/-- the namespace of `q` as the value layer sees it (plain names): cells (own and derived), then references (own and
+derived, then model-level: both are the slot `(q, x)`), a child space of the name otherwise (no value).
+The chain of maps of `BaseSpaceImpl.__init__` (`Struct/MechNamespace.lean`, `SM.nsOf`).  A name with dots:
+the declared slot. -/
+def nsPlain (t : Tabs) (st : SM.St) (q : Path) : Ns := fun x =>
   if (st.mem .cells q x).isSome then some (.cell (t.cid q x))
+  else if st.globals.contains x then some (.ref (t.rid q x))
   else if (st.childNames q).contains x then none
   else if (st.mem .refs q x).isSome then some (.ref (t.rid q x))
   else none
+
+/-- the binding of an attribute path: the declared slot -/
+def slotBinding (t : Tabs) (e : Path × String) : Option Binding :=
+  some (.ref (t.rid e.1 e.2))
+
+def nsAt (t : Tabs) (st : SM.St) (q : Path) : Ns := fun x =>
+  match qualOf t q x with
+  | some e => slotBinding t e
+  | none => nsPlain t st q x
 
 /-- the member entry a cells identity stands for: space, name, entry -/
 def cellInfo (t : Tabs) (st : SM.St) (c : CellId) : Option (Path × String × SM.Member) :=
@@ -145,7 +202,7 @@ def envOf (P : Params) (t : Tabs) (st : SM.St) : Env where
     | none => false
   refs := fun r =>
     match t.refOf r with
-    | some (q, x) => if t.rid q x == r then (st.mem .refs q x).map (fun m => P.valOf m.payload) else none
+    | some (q, x) => if t.rid q x == r then (refPay t st q x).map P.valOf else none
     | none => none
   maxdepth := P.maxdepth
   observers := fun r =>
@@ -299,7 +356,42 @@ def clearing (kw : List String) (t : Tabs) (st st' : SM.St) : SM.Op → List Cle
   | .setGlobal _ => []
   | .delGlobal _ => []
 
-/-- the structural operations of the machine (model-level references are not in it) -/
+/-- `clear_attr_referrers(model-level reference x)`: the readers of every slot that denotes it -/
+def globalAttr (t : Tabs) (st : SM.St) (x : String) : List Clear :=
+  (t.rtab.filter (fun e => e.2 == x && (st.mem .refs e.1 x).isNone && (st.mem .cells e.1 x).isNone)).map
+    (fun e => Clear.attr (t.rid e.1 x))
+
+/-- the reference members of `st'` that `st` lacks although a model-level reference of their name
+exists: they start to shadow it -/
+def shadowed (st st' : SM.St) (derivedOnly : Bool) : List String :=
+  ((refMembers st').filter (fun e =>
+    (st.mem .refs e.1 e.2).isNone && st.globals.contains e.2 &&
+      (!derivedOnly || (match st'.mem .refs e.1 e.2 with | some m => m.derived | none => false)))).map (·.2)
+
+/-- `if name in self.model.global_refs: clear_attr_referrers(global_refs[name])` of `on_create_ref`
+(every `space.x = v`: `new_ref` and `change_ref` both end in `on_create_ref` of the space itself, and of
+the sub spaces that get or re-get the reference) and of `UserSpaceImpl.on_inherit` (a reference derived
+through bases: `add_bases`, `remove_bases`, `del`, `new_space(bases=…)`; the references handed to the
+constructor of a new space are put into the container without it – nothing can have been read through a
+space that did not exist) -/
+def shadowClears (t : Tabs) (st st' : SM.St) : SM.Op → List Clear
+  | .setRef _ name _ => if st.globals.contains name then globalAttr t st name else []
+  | .newSpace _ _ _ _ => (shadowed st st' true).flatMap (globalAttr t st)
+  | _ => (shadowed st st' false).flatMap (globalAttr t st)
+
+/-- the whole clearing of an accepted structural operation -/
+def clearingG (kw : List String) (t : Tabs) (st st' : SM.St) (o : SM.Op) : List Clear :=
+  clearing kw t st st' o ++ shadowClears t st st' o
+
+/-- `model.x = v` / `del model.x`: `ModelImpl.del_ref` (`clear_attr_referrers`, `RefDict.del_item`:
+`clear_attr_referrers`, notification) when the reference exists, `new_ref` (`set_item`: notification)
+when it is set; the observers of `model._global_refs` are the `_refs` chains of ALL spaces -/
+def globalClearing (t : Tabs) (st : SM.St) (x : String) : List Clear :=
+  (if st.globals.contains x then globalAttr t st x ++ globalAttr t st x else []) ++
+    st.ids.map (fun q => Clear.ns (cellsOf t st q))
+
+/-- the structural operations of the machine as `struct` (model-level references carry a value: they
+are the operations `setGlobal` / `delGlobal` of `Op`) -/
 def supported : SM.Op → Bool
   | .setGlobal _ => false
   | .delGlobal _ => false
@@ -325,6 +417,12 @@ inductive Op
   | clear (q : Path) (n : String)
   /-- `cells.clear_all()` -/
   | clearAll (q : Path) (n : String)
+
+/-- the machine before anything happens, with the declared attribute slots -/
+def W.init (slots : List (Path × String)) : W := { tabs := { rtab := slots, slots := slots } }
+
+def setGv (gv : List (String × Nat)) (x : String) (v : Nat) : List (String × Nat) :=
+  gv.filter (fun e => e.1 != x) ++ [(x, v)]
 
 def W.env (P : Params) (w : W) : Env := envOf P w.tabs w.sm
 
@@ -382,7 +480,8 @@ def nsNames (st : SM.St) (q : Path) : List String :=
   (conts st .cells q).map (·.1) ++ (conts st .refs q).map (·.1) ++ st.childNames q
 
 def sameNs (t : Tabs) (st st' : SM.St) (q : Path) : Bool :=
-  (nsNames st q ++ nsNames st' q).all (fun x => nsAt t st q x == nsAt t st' q x)
+  (nsNames st q ++ nsNames st' q ++ st.globals ++ st'.globals).all (fun x =>
+    (qualOf t q x).isSome || nsAt t st q x == nsAt t st' q x)
 
 def covered (t : Tabs) (st st' : SM.St) (cl : List Clear) : Bool :=
   (st.ids ++ st'.ids).all (fun q =>
@@ -395,7 +494,22 @@ def covered (t : Tabs) (st st' : SM.St) (cl : List Clear) : Bool :=
     ((conts st .refs q).map (·.1) ++ (conts st' .refs q).map (·.1)).all (fun x =>
       st'.mem .refs q x == st.mem .refs q x ||
         ((cellsOf t st q).all (touchedBy cl) &&
-          ((st.mem .refs q x).isNone || cl.contains (Clear.attr (t.rid q x))))))
+          ((st.mem .refs q x).isNone || cl.contains (Clear.attr (t.rid q x))))) &&
+    -- a slot that denotes another reference / value than before (a reference starts or stops shadowing
+    -- the model-level one, ...)
+    (st.globals ++ st'.globals).all (fun x =>
+      -- (a space that is deleted: an attribute path through it is an object-valued reference to a deleted
+      -- space - not in the machine)
+      !st'.has q || refPay t st' q x == refPay t st q x ||
+        ((cellsOf t st q).all (touchedBy cl) &&
+          ((refPay t st q x).isNone || cl.contains (Clear.attr (t.rid q x))))))
+
+/-- a model-level reference is set or deleted: every cells is notified, and every slot that denoted it
+is reader-free -/
+def coveredGlobal (t : Tabs) (st : SM.St) (x : String) (cl : List Clear) : Bool :=
+  st.ids.all (fun q =>
+    (cellsOf t st q).all (touchedBy cl) &&
+      ((refPay t st q x).isNone || (st.mem .refs q x).isSome || cl.contains (Clear.attr (t.rid q x))))
 
 /-- is the step `op` from `w` one whose clearing covers what changed (value-layer operations, refused
 operations: yes) -/
@@ -407,5 +521,61 @@ def stepCovered (P : Params) (w : W) : Op → Bool
       | some st' => covered (w.tabs.grow st') w.sm st' (clearing P.kw (w.tabs.grow st') w.sm st' o)
     else true
   | _ => true
+
+/-! ## the machine with model-level references
+
+`step` / `Op` is the machine the theorems of `Proofs/EditMachineRun.lean` speak about: in a state
+without model-level references `clearingG = clearing`.  `stepG` adds `model.x = v` / `del model.x`
+and the clearing of shadowed model-level references; it is what the driver layer `edit` runs and
+compares with modelx, evaluating `stepCoveredG` at every step. -/
+
+inductive OpG
+  | op (o : Op)
+  /-- `model.x = v` (`ModelImpl.set_attr`): `SM.Op.setGlobal` with the value; an existing reference is
+  deleted and created (`ModelImpl.change_ref`) -/
+  | setGlobal (x : String) (v : Nat)
+  /-- `del model.x` -/
+  | delGlobal (x : String)
+
+def stepG (P : Params) (w : W) : OpG → W
+  | .op (.struct o) =>
+    if supported o then
+      match w.sm.apply P.kw o with
+      | none => w
+      | some st' =>
+        let t' := w.tabs.grow st'
+        { sm := st', tabs := t', ex := doClears (envOf P t' w.sm) w.ex (clearingG P.kw t' w.sm st' o) }
+    else w
+  | .op o => step P w o
+  | .setGlobal x v =>
+    match w.sm.apply P.kw (.setGlobal x) with
+    | none => w
+    | some st' =>
+      let t' := w.tabs.grow st'
+      { sm := st', tabs := { t' with gv := setGv t'.gv x v },
+        ex := doClears (envOf P t' w.sm) w.ex (globalClearing t' w.sm x) }
+  | .delGlobal x =>
+    match w.sm.apply P.kw (.delGlobal x) with
+    | none => w
+    | some st' =>
+      let t' := w.tabs.grow st'
+      { sm := st', tabs := t', ex := doClears (envOf P t' w.sm) w.ex (globalClearing t' w.sm x) }
+
+def stepCoveredG (P : Params) (w : W) : OpG → Bool
+  | .op (.struct o) =>
+    if supported o then
+      match w.sm.apply P.kw o with
+      | none => true
+      | some st' => covered (w.tabs.grow st') w.sm st' (clearingG P.kw (w.tabs.grow st') w.sm st' o)
+    else true
+  | .op _ => true
+  | .setGlobal x _ =>
+    match w.sm.apply P.kw (.setGlobal x) with
+    | none => true
+    | some _ => coveredGlobal (w.tabs.grow w.sm) w.sm x (globalClearing (w.tabs.grow w.sm) w.sm x)
+  | .delGlobal x =>
+    match w.sm.apply P.kw (.delGlobal x) with
+    | none => true
+    | some _ => coveredGlobal (w.tabs.grow w.sm) w.sm x (globalClearing (w.tabs.grow w.sm) w.sm x)
 
 end MxModel.Edit
